@@ -364,16 +364,16 @@ def r4(ck):
             ck.bad("C18.R4", "Span::log emits at most one record per call", where(sl.raw["sp"]), "records per path: %s" % sorted(set(per)), fn=sl.path)
 
 
-def r5(ck, F):
+def r5(ck, F, rid="C18.R5"):
     """The tracing->log fallback is switched off by dispatch::has_been_set(). "Once a collector has been installed none
     are emitted" needs that predicate to be monotone: it must be exactly the sticky EXISTS flag, which both install
     paths (global and scoped) set on every successful path (same rule as C02.R5) and which nothing clears."""
     from rules import C02
-    C02.r5(ck, F, True, rid="C18.R5")
+    C02.r5(ck, F, True, rid=rid)
     D = "tracing_core::dispatch::"
     b = F.body(D + "has_been_set")
     key = "has_been_set() == EXISTS.load()"
-    if ck.anchor("C18.R5", "dispatch::has_been_set", b):
+    if ck.anchor(rid, "dispatch::has_been_set", b):
         rets = set()
         for p in PathEval(b).run():
             if p.end == "return":
@@ -381,17 +381,17 @@ def r5(ck, F):
         loads = [t for bb, t in b.calls() if t["callee"].get("method") == "load"]
         ex = [t for t in loads if C02.static_of(b, t["argv"][0]) == D + "EXISTS"]
         if len(loads) == 1 and len(ex) == 1 and len(rets) == 1 and list(rets)[0].startswith("load("):
-            ck.ok("C18.R5", key, fn=b.path)
+            ck.ok(rid, key, fn=b.path)
         else:
-            ck.bad("C18.R5", key, where(b.raw["sp"]), "has_been_set returns %s from %d atomic loads: a non-sticky input (e.g. the live scope count) lets the "
+            ck.bad(rid, key, where(b.raw["sp"]), "has_been_set returns %s from %d atomic loads: a non-sticky input (e.g. the live scope count) lets the "
                    "log fallback switch back on after the last scoped collector is dropped" % (sorted(rets), len(loads)), fn=b.path)
     # nothing stores false into EXISTS
     clears = [(x, bb) for x, bb, t, m in C02.atomic_calls(F, D + "EXISTS", {"store", "swap", "compare_exchange", "fetch_and", "fetch_xor"})
               if not (m == "store" and x.origin(t["argv"][1])[0] == "const" and x.origin(t["argv"][1])[1].get("int") == 1)]
     if clears:
-        ck.bad("C18.R5", "EXISTS is never cleared", where(clears[0][0].raw["sp"]), "%s writes a value other than `true` to EXISTS" % clears[0][0].path)
+        ck.bad(rid, "EXISTS is never cleared", where(clears[0][0].raw["sp"]), "%s writes a value other than `true` to EXISTS" % clears[0][0].path)
     else:
-        ck.ok("C18.R5", "EXISTS is never cleared")
+        ck.ok(rid, "EXISTS is never cleared")
 
 
 def r6(ck, F):
